@@ -113,4 +113,12 @@ PROPS = {
         level_note="Trusted: Lean kernel; dagcbor (go-ipld-prime/refmt), go-cid, go-multihash and SHA-256 are dependencies represented by Model/Cbor.lean and the parameter sha256 — the model is validated against dagcbor differentially, not proved. Uniqueness of the CID for a given signed content additionally needs each signature scheme to admit one signature encoding per (key, message): measured by the stream — holds for Ed25519/RSA, refuted for ECDSA (open known finding F-C08-ecdsa-signature-malleability).",
         assumptions=["SHA-256 is a parameter of the model (collision resistance is named where used, never proved)", "half- and single-precision floats, indefinite lengths and CBOR 'undefined' are rejected by the model's decoder; go-ipld-prime decodes them and the canonical re-encoding check then rejects them, so acceptance agrees"],
     ),
+    "C16": dict(
+        props_module="Ucan.Props.C16",
+        streams=["did"],
+        technique="Lean 4 proofs over a model of Parse/String/PubKey/FromPubKey with base58 and the per-codec key (un)marshallers as parameters: varint round trip (induction), key→DID→text→DID→key identity, DID equality ⇔ key equality, canonical-identifier theorem, rejection theorems, and a decide-checked inclusion between the multicodec tables REGENERATED from the source; tied by a differential run over keys of every algorithm and alternative encodings of their material with an independent crypto-library oracle",
+        level_text="C16_tables (every code FromPubKey can emit is in Parse's whitelist and PubKey's table — over facts regenerated from did.go/crypto.go on every run), uvarint_roundtrip, C16_parse_print, C16_roundtrip, C16_eq_iff, C16_distinct_algorithms, C16_canonical, C16_one_principal_one_did, C16_print_injective, C16_reject_prefix/base/codec, C16_parsed_code. Go is compared with the model on keys of Ed25519, secp256k1 (native and ECDSA-typed, incl. short coordinates), P-256/384/521, RSA and on did:key strings with uncompressed/hybrid points, flipped parity, off-curve x, wrong lengths, malformed DER, non-minimal varints, foreign codes and multibases, bad base58.",
+        level_note="Trusted: Lean kernel; factgen's extraction of the three multicodec tables; conditional on library contracts stated as hypotheses (base58 decode∘encode = id and injectivity; unmarshal∘marshal = id; marshal injective) — measured by the stream, not proved; mr-tron/base58, go-multibase, go-varint, libp2p crypto, crypto/x509 and crypto/elliptic are dependencies outside the proofs. The driver's base58 is executable glue, checked differentially against Go's.",
+        assumptions=["base58btc and the key (un)marshallers are parameters of the model with explicit contracts"],
+    ),
 }
